@@ -57,13 +57,16 @@ def run_job(job):
             pws = pws[:4]
         n = 0
 
-        def register(pw, cred, setup, blind_seed, env_seed, idu=None, ids=None):
+        s.cmd("ksf_new", id="k3", param=3)
+        s.cmd("ksf_new", id="k1", param=okv.HKSF_DEFAULT_PARAM)
+
+        def register(pw, cred, setup, blind_seed, env_seed, idu=None, ids=None, ksf=None):
             nonlocal evals
             s.rng("b", blind_seed)
             s.rng("e", env_seed)
             a = s.cmd("creg_start", rng="b", pw=pw, out_state="t.cs", out_msg="t.rq")
             b = s.cmd("sreg_start", setup=setup, req="t.rq", cred=cred, out="t.rr")
-            c = s.cmd("creg_finish", rng="e", state="t.cs", pw=pw, resp="t.rr", id_u=idu, id_s=ids, out="t.up")
+            c = s.cmd("creg_finish", rng="e", state="t.cs", pw=pw, resp="t.rr", id_u=idu, id_s=ids, ksf=ksf, out="t.up")
             evals += 3
             if a.failed or b.failed or c.failed:
                 V("control: registration failed", str([dict(x) for x in (a, b, c) if x.failed]))
@@ -106,6 +109,19 @@ def run_job(job):
                         V("masking key unchanged when the %s changes" % what, "pw %s cred %s" % (proto.short(pw), proto.short(cred)))
                     if base["export"] == alt["export"]:
                         V("export key unchanged when the %s changes" % what, "pw %s cred %s" % (proto.short(pw), proto.short(cred)))
+                # the key-stretching function is the fourth (and last) thing the result depends on: other parameters, other
+                # masking key; the default's parameters passed explicitly, the same one
+                alt = register(pw, cred, "S", proto.H("b1", n), proto.H("e1", n), ksf="k3")
+                same = register(pw, cred, "S", proto.H("b1", n), proto.H("e1", n), ksf="k1")
+                if alt and same:
+                    stats["param_changes"] += 1
+                    stats["ksf_changes"] = stats.get("ksf_changes", 0) + 1
+                    if mk(base["rupl"]) == mk(alt["rupl"]):
+                        V("masking key unchanged when the key-stretching function changes", "pw %s cred %s" % (proto.short(pw), proto.short(cred)))
+                    if base["export"] == alt["export"]:
+                        V("export key unchanged when the key-stretching function changes", "pw %s cred %s" % (proto.short(pw), proto.short(cred)))
+                    if same["rupl"] != base["rupl"] or same["export"] != base["export"]:
+                        V("result depends on whether the default key-stretching parameters are passed explicitly", "pw %s cred %s" % (proto.short(pw), proto.short(cred)))
                 # static key does not enter the evaluation
                 ok_ = register(pw, cred, "S_otherkey", proto.H("b1", n), proto.H("e1", n))
                 if ok_:
@@ -178,6 +194,8 @@ def run_job(job):
 def floors(tier, stats, results):
     missing = [x for x in okv.SUITES20 if stats.get("suites", {}).get(x, 0) < 40]
     out = ["fewer than 40 re-blinding pairs for suites %s" % missing] if missing else []
+    if stats.get("ksf_changes", 0) < 20 * 20:
+        out.append("fewer than 20 key-stretching-function changes per suite")
     if stats.get("degenerate_seeds", 0) < 6 * 20:
         out.append("degenerate / restored OPRF seeds not evaluated on every suite")
     return out
